@@ -31,6 +31,18 @@ func (m *C07) OnBlock(e *Env, blk *world.BlockRecord) {
 	if m.everVoted == nil {
 		m.everVoted = map[string]bool{}
 	}
+	// "locked against withdrawal under the feeds vault": no accepted undelegation or unstake takes the voter's total power below
+	// what its standing vote locks at that moment
+	for _, j := range sh.JOps {
+		if infraReject(j.Tx) || !j.Tx.OK() || (j.Meta.Kind != "undelegate" && j.Meta.Kind != "unstake") {
+			continue
+		}
+		if j.Possible && j.FeedsLock.IsPositive() && j.PowerPost.LT(j.FeedsLock) {
+			e.Fail("C07", "voted_power_withdrawn", j.Meta.Kind, "%s by %s (aim %s) accepted: total power %s -> %s, but the standing vote locks %s under the feeds vault",
+				j.Meta.Kind, j.Meta.Addr.Name, j.Meta.Aim, j.PowerPre, j.PowerPost, j.FeedsLock)
+			return
+		}
+	}
 	for _, j := range sh.JVotes {
 		if infraReject(j.Tx) {
 			continue
